@@ -72,6 +72,18 @@ CLAIMED["C11"] = (
     "No analysed configuration enables stacker.  The reviewed constants (4, 10, 500) encode the measured stack margin; "
     "lowering a cost or raising the cap is reported.")
 
+CLAIMED["C06"] = (
+    "guard/dominance and error-propagation rules over MIR for the error clauses (double extends, inheritance cycle, missing template, include errors); block resolution itself not decided",
+    "Static rule check of the property's error clauses only: the LoadBlocks handler is guarded by is_some() on the "
+    "variable that stores the loaded parent and its true side returns Err; output is discarded from a successful "
+    "LoadBlocks until the parent's instructions are swapped in; load_blocks is guarded by the loaded_templates "
+    "membership test, records every successful load and propagates loader/compile errors; perform_include discards "
+    "a loader error only under kind()==TemplateNotFound and reports TemplateNotFound unless ignore_missing.  Which "
+    "block definition renders for a given chain, super() order and include/import variable visibility are "
+    "value-level behaviour that static analysis does not decide; they are NOT claimed.",
+    "DESIGN.md §3 C06",
+    "Partial claim (error clauses).  Include recursion accounting is decided under C11.")
+
 NOT_APPLICABLE = {
 }
 
